@@ -771,7 +771,9 @@ fn refid_cmd() -> Value {
             };
             let want = if cfg == rep { 777 } else { 0 };
             rows.push(json!({"configured": cfg, "reported": rep, "phc_in_message": phc}));
-            if phc != Some(want) {
+            // an iteration rejected for its clock reads is C12's business, not a reference-id mismatch
+            let order_err = matches!(&r, Err(e) if e.starts_with("C12"));
+            if phc != Some(want) && !order_err {
                 viol.push(json!({"property": "C13", "signature": "refid-match", "what": format!("configured reference id {cfg:?}, chronyd reports {rep:?}: message carries PHC error bound {phc:?}, expected {want}")}));
             }
         }
